@@ -119,6 +119,10 @@ class Lifecycle(core.Scenario):
                 srv.append(self.ws_push_action(a, k))
             else:
                 srv.append(get_answer(lambda a=a, k=k: poll_response(a, k), a))
+            if p.get('spacing'):
+                # a paced server: its k-th answer is not sent before (k+1) x spacing (heartbeat cycles a little longer than
+                # ping_interval, as they are when PONGs take time to arrive)
+                srv[-1].not_before = (k + 1) * p['spacing']
         self.post_answers = list(p.get('posts', []))
         app = []
         for a in p.get('app', []):
@@ -288,6 +292,11 @@ class Lifecycle(core.Scenario):
                 snap = ev[0][1]
                 if snap.get('sid') != 'S1' or snap.get('pi') != 1.0 or snap.get('pt') != 1.0:
                     self.flag('open_not_adopted', 'adopted %r, announced sid=S1 1000/1000 ms' % (snap,), trigger=trig)
+            if p.get('spacing') and self.pos[0] < len(self.scripts[0]):
+                # the paced server never went silent for ping_interval + ping_timeout, yet the client ended the connection before
+                # the server had said everything it had to say
+                self.flag('healthy_connection_given_up', 'the server paced its answers %.3f s apart (ping_interval 1 s, ping_timeout 1 s); the client '
+                          'ended the connection before answer #%d: events %r' % (p['spacing'], self.pos[0], [e[:2] for e in ev]), trigger=trig)
             nd = kinds.count('disconnect')
             if nd != 1:
                 self.flag('disconnect_count', '%d disconnect events (events %r, state %r, causes %r)'
@@ -522,6 +531,11 @@ def param_list(ctx):
         for seq in (['close'], ['s400'], ['msg', 'close']):
             ps.append({'impl': impl, 'transports': ['websocket'], 'connect': '-', 'ws': ['accept', 'open'], 'polls': seq,
                        'app': ['disconnect'], 'effects': {'disconnect': ['sleep', 0.25]}})
+        # 4b. healthy connections over several heartbeat cycles of ping_interval + 3/8 s, ended by the server
+        for tr, extra in ((['polling'], {'connect': 'open'}), (['websocket'], {'connect': '-', 'ws': ['accept', 'open']}),
+                          (None, {'connect': 'open_up', 'ws': ['accept', 'probe_ok']})):
+            for nb in ((4,) if ctx.quick else (3, 5)):
+                ps.append(dict({'impl': impl, 'transports': tr, 'polls': ['ping'] * nb + ['close'], 'spacing': 1.375}, **extra))
         # 5. upgrade attempts
         for beh in (['refuse'], ['accept', 'probe_ok'], ['accept', 'probe_wrong'], ['accept', 'probe_silence'],
                     ['accept', 'probe_close'], ['accept', 'probe_garbage'], ['accept', 'probe_ok_drop']):
